@@ -4,5 +4,6 @@ CONSTANTS Keys = {1, 2}
           Zero = {2}
           D = 2
           GAttrs = {"ok", "expired", "negttl"}
+          GDiag = FALSE
 INVARIANTS Emit
 CHECK_DEADLOCK FALSE
